@@ -499,13 +499,18 @@ func Judge(sc *Scenario, tr *Trace) ([]pbt.Violation, Stats) {
 	}
 
 	// ---- C04 "only if" (A.9) over consecutive successful deliveries
-	stateLoss := func(t1, t2 time.Time) bool {
+	// a restart without snapshot empties the log; one with the last maintenance snapshot rolls it back
+	// (what the receiver was told since then is forgotten): both break the delivery sequence
+	stateLoss := func(t1, t2 time.Time) (lost, rolledBack bool) {
 		for _, r := range m.Restarts {
 			if r.At.After(t1) && r.At.Before(t2) && r.Kind != "clean" {
-				return true
+				lost = true
+				if r.Kind == "stale" {
+					rolledBack = true
+				}
 			}
 		}
-		return false
+		return lost, rolledBack
 	}
 	for k, s := range seqs {
 		var prev *Attempt
@@ -517,8 +522,12 @@ func Judge(sc *Scenario, tr *Trace) ([]pbt.Violation, Stats) {
 			cfg := m.CfgAt(a.T)
 			sr := sendResolvedOf(cfg, a.Receiver, a.Idx)
 			fq, rq := split(a)
-			if prev == nil || stateLoss(prev.Done, a.Flush) {
-				if len(fq) == 0 {
+			lost, rolledBack := false, false
+			if prev != nil {
+				lost, rolledBack = stateLoss(prev.Done, a.Flush)
+			}
+			if prev == nil || lost {
+				if len(fq) == 0 && !rolledBack {
 					add(pbt.V("first-notification-without-firing", "first notification of %v at %s lists no firing alert", k, a.T.Format(tf)))
 				}
 				prev = a
